@@ -525,7 +525,7 @@ func c15Cells(seed int64, thorough, race bool) []c15Cell {
 				if sk == "Uniform" {
 					continue
 				}
-				for k := 0; k < 1200; k++ {
+				for k := 0; k < 8000; k++ {
 					cells = append(cells, c15Cell{Helper: h, Src: sk, Sub: rng.Bool(), W: rng.Range(1, 70), H: rng.Range(1, 70), OX: rng.Range(0, 40), OY: rng.Range(0, 40), Par: rng.Range(1, 40), Seed: rng.U64()})
 				}
 			}
